@@ -65,6 +65,12 @@ impl<'mir> MirCompilerPass<'_> for InterfaceVerifier<'mir> {
                                                     );
                                                 }
 
+                                                if args_array_in {
+                                                    idlc_errors::unrecoverable!(
+                                                        "Interface `{}`, method `{}` has multiple input object arrays",
+                                                        src.ident, f.ident
+                                                    );
+                                                }
                                                 args_array_in = true;
                                             };
                                             if let Type::Struct(_) | Type::Primitive(_) = t {
@@ -108,6 +114,12 @@ impl<'mir> MirCompilerPass<'_> for InterfaceVerifier<'mir> {
                                                     idlc_errors::warn!(
                                                         "Interface `{}`, method `{}` has the array size of 1. It is better to use non-array interface instead111",
                                                         iface_name, f.ident
+                                                    );
+                                                }
+                                                if args_array_out {
+                                                    idlc_errors::unrecoverable!(
+                                                        "Interface `{}`, method `{}` has multiple output object arrays",
+                                                        src.ident, f.ident
                                                     );
                                                 }
                                                 args_array_out = true;
